@@ -80,7 +80,7 @@ def gen_dict_program(g, length):
             dv = r.choice(datasets)
             what = gv if r.random() < 0.85 else r.choice(pool)
             prog.append({"op": "ds_set", "d": dv, "key": r.choice(["mesh", "part", "sink"]), "v": what})
-        elif k < 0.84:
+        elif k < 0.86:
             dv = r.choice(datasets)
             sub = r.random()
             gk = r.choice(["mesh", "part", "sink"])
@@ -96,6 +96,15 @@ def gen_dict_program(g, length):
                 prog.append({"op": "ds_update", "d": dv, "items": items, "kw": r.random() < 0.5})
             else:
                 prog.append({"op": "ds_meta_set", "d": dv, "key": r.choice(["time", "ndim"]), "val": str(r.randint(0, 9))})
+            # get / [] on the dataset: a stored group comes back as the stored object (also when it is empty), a missing key
+            # gives the default / KeyError
+            d = fresh()
+            if r.random() < 0.7:
+                prog.append({"op": "ds_get", "dst": d, "d": dv, "key": gk, "default": r.choice(groups)})
+            else:
+                prog.append({"op": "ds_getkey", "dst": d, "d": dv, "key": gk})
+            for g2 in groups:
+                prog.append({"op": "same", "a": d, "b": g2})
         elif k < 0.88:
             dv = r.choice(datasets)
             prog.append({"op": "ds_keys", "d": dv, "iter": r.random() < 0.5})
